@@ -6,6 +6,21 @@ BASELINE = ("cd /repo && cargo nextest run --workspace --no-fail-fast --test-thr
             "|| cargo test --workspace --no-fail-fast --offline")
 
 CHECKS = {
+    "C01": dict(
+        category="exploration",
+        text=("The real nuts::draw is executed (through cfg-guarded hooks) with a scripted momentum and a scripted RNG; the complete "
+              "decision tree of its RNG requests is enumerated by re-execution and branch probabilities are obtained by bisection on the "
+              "raw word, which yields the exact transition probabilities P(i->j | directions). Checked: every direction sequence has "
+              "probability 2^-n, the run from each selectable state with mirrored directions rebuilds the same states / depth / stop "
+              "reason, and pi(z)P(z->z') = pi(z')P(z'->z) to 1e-6 for every selectable pair (maxdepth <= 3 quick, 4 thorough). Deep trees "
+              "(depth <= 8) are checked for trajectory symmetry with random scripts. Exploration: the quantifier ranges over all "
+              "densities, states and step sizes."),
+        design_ref="DESIGN.md section 3, C01",
+        note=("Assumes every RNG request is used as a monotone threshold on a uniform word (probed per node; a failed probe skips the "
+              "case). U-turn decisions within 1e-7 of their threshold and orbits with measured sensitivity > 1e6 are skipped and "
+              "counted. Divergent trajectories are outside the quantifier."),
+        technique="exhaustive enumeration of the sampler's RNG decision tree per generated case (proptest), exact detailed-balance and mirror-trajectory oracles",
+    ),
     "C02": dict(
         category="exploration",
         text=("One integration step of the real TransformedHamiltonian (driven through cfg-guarded hooks) is compared with a "
